@@ -126,6 +126,48 @@ CHECKS.update({
         ref="DESIGN.md section 6 C19"),
 })
 
+CHECKS.update({
+    "C09": dict(
+        technique="exhaustive TLA+ model checking of the scalar schemes in exact rationals (TLC: all integer data x limiters x SSP "
+                  "integrators x CFL) + TLC-judged per-iteration fields of real solves (exact dyadic runs validated step by step "
+                  "against the specification, ulps tokens on random runs)",
+        text="Scalar.tla advances convection and Burgers with the real reconstruction/flux/integrator algebra in exact rationals; "
+             "TLC checks maximum principle, TVD and mean conservation on every data set of the lattice; the real solve is run on the same "
+             "integer data (exact floats: TLC evaluates max/min/TV on the observed fields and checks each transition is a step of the "
+             "specification) and on random/step/sawtooth data up to N=200.",
+        ref="DESIGN.md section 6 C09"),
+    "C10": dict(
+        technique="TLA+ model checking of the one-step positivity induction over ALL triples of an exact-point state grid (TLC) + "
+                  "spec-to-code replay of triples as 3-cell problems + TLC-judged per-iteration positivity of random strong-jump runs",
+        text="The first-order update of a cell depends on three cells: Positivity.tla enumerates all triples (shallow water: depth "
+             "ratios to 900, Froude to 3; Euler: exact-point sub-grid), both fluxes, CFL 1/4 and 1/2, periodic and wall closures; sampled "
+             "triples go through the real solve (new state identified with a rational and compared with the specification); random "
+             "piecewise-constant runs with ratios to 1e3 are judged at every iteration.",
+        ref="DESIGN.md section 6 C10"),
+    "C16": dict(
+        technique="TLC evaluation of the boundary conditions' DEFINING predicates (Vars.tla, exact rationals) on states returned by the "
+                  "real namedBC + ulps tokens of the defining quantities on random states, both sides / four sides",
+        text="Vars.tla states what each Euler boundary condition must satisfy (imposed totals, pressure, copied quantities, direction, "
+             "Rankine-Hugoniot relations, wall reversal) and TLC checks them exactly on returned states that are small rationals "
+             "(gamma 3/2, 2) and, at model level, that they reduce to the interior state for matching parameters; random states over "
+             "six decades, every condition, dir = -1/+1, euler2d on all sides with the insup angle, shallow water, dirichlet.",
+        ref="DESIGN.md section 6 C16"),
+    "C17": dict(
+        technique="TLA+ model checking of variable definitions and ideal-gas identities in exact rationals (TLC) + TLC-judged values of "
+                  "every name in list_var() against its definition (exact rationals / ulps), shapes, round trips, bitwise homogeneity",
+        text="Vars.tla defines every named variable and the internal identities; TLC compares the real nameddata values with the "
+             "definitions exactly for gamma = 3/2, 2 and by ulps over 12 decades otherwise, for euler1d, nozzle, euler2d, shallow water, "
+             "convection and Burgers, with shape (one value per cell) and power-of-two homogeneity tokens.",
+        ref="DESIGN.md section 6 C17"),
+    "C18": dict(
+        technique="exact TLC check of the eigen-relations of the physical flux Jacobian (spectral radius) + TLC-judged calc_timestep "
+                  "values (exact rationals on exact points, ulps, bitwise linearity, locality) + driver observation with per-cell dt",
+        text="Fluxes.tla proves on every grid state that |u|+c is the spectral radius of the analytic Jacobian of the specification's own "
+             "physical flux; the real calc_timestep is compared with cfl*h/(|u|+c) for all six models (2D cell size dx dy/(dx+dy)), and "
+             "the driver is run with a non-uniform per-cell dt and rhs == 1 so that time and data increments are the step sizes.",
+        ref="DESIGN.md section 6 C18"),
+})
+
 NOT_YET = "check not built yet in this round (work in progress; see DESIGN.md section 6 for the planned TLA+ model and binding)"
 NOT_APPLICABLE = {
     "C04": "asymptotic convergence order against irrational exact solutions over mesh sequences: no finite-state exact-arithmetic "
